@@ -197,6 +197,7 @@ func pairsString(ps map[pair]bool) []string {
 type rcptObs struct {
 	err       error
 	handed    map[pair]bool
+	count     map[pair]int // how often each pair was handed over (recipients are not deduplicated after expansion)
 	unknown   []string
 	afterData bool
 }
@@ -213,6 +214,7 @@ func (sc *scenario) drive(env envelope, ei int) (error, []rcptObs) {
 		before := sc.lg.Len()
 		o := &out[i]
 		o.handed = map[pair]bool{}
+		o.count = map[pair]int{}
 		if startErr != nil {
 			o.err = startErr
 		} else {
@@ -232,6 +234,7 @@ func (sc *scenario) drive(env envelope, ei int) (error, []rcptObs) {
 				continue
 			}
 			o.handed[pair{ti, cl}] = true
+			o.count[pair{ti, cl}]++
 		}
 	}
 	if startErr != nil {
@@ -268,6 +271,44 @@ func splitLeaves(ls []leaf) (map[pair]bool, []*rejectSpec) {
 		}
 	}
 	return want, refusals
+}
+
+// leafCounts: how often the model hands each (target, recipient) pair over. The documentation says
+// "Recipients are not deduplicated after expansion, so message may be delivered multiple times to a
+// single recipient": a pair the rewrites produce twice is handed over twice, and one they produce
+// once is handed over once.
+func leafCounts(ls []leaf) map[pair]int {
+	n := map[pair]int{}
+	for _, lf := range ls {
+		if lf.refuse == nil {
+			n[pair{lf.target, lf.rcpt}]++
+		}
+	}
+	return n
+}
+
+func countsString(ps map[pair]int) []string {
+	var out []string
+	for p, n := range ps {
+		out = append(out, fmt.Sprintf("T%d<-%s x%d", p.target, p.rcpt, n))
+	}
+	sort.Strings(out)
+	return out
+}
+
+// diffCount compares hand-over multiplicities for the pairs both sides know.
+func diffCount(want, obs map[pair]int) (more, fewer bool) {
+	for p, n := range obs {
+		if w, ok := want[p]; ok && n > w {
+			more = true
+		}
+	}
+	for p, w := range want {
+		if n, ok := obs[p]; ok && n < w {
+			fewer = true
+		}
+	}
+	return
 }
 
 func matchAnyReply(r *rep.Reporter, refusals []*rejectSpec, err error) (bool, string) {
@@ -311,6 +352,16 @@ func judge(leaves []leaf, env envelope, i int, startErr error, o rcptObs, r *rep
 			}
 			return disc, fmt.Sprintf("recipient %q (sender %q): targets were handed %v, the selected block(s) say %v", rc, snd, pairsString(o.handed), pairsString(want))
 		}
+		if more, fewer := diffCount(leafCounts(leaves), o.count); more || fewer {
+			disc := "handed"
+			if more {
+				disc += "-more-often-than-the-rewrites-produce"
+			}
+			if fewer {
+				disc += "-less-often-than-the-rewrites-produce"
+			}
+			return disc, fmt.Sprintf("recipient %q (sender %q): hand-overs observed %v, the rewrites and the selected block(s) give %v", rc, snd, countsString(o.count), countsString(leafCounts(leaves)))
+		}
 	case len(want) == 0: // every result is refused
 		if o.err == nil {
 			return "accepted-but-block-rejects", fmt.Sprintf("recipient %q (sender %q) accepted and handed to %v; the selected block rejects (%s)", rc, snd, pairsString(o.handed), refusals[0])
@@ -332,6 +383,9 @@ func judge(leaves []leaf, env envelope, i int, startErr error, o rcptObs, r *rep
 		if _, extra := diff(want, o.handed); len(extra) > 0 {
 			return "handed-to-other-target-or-as-other-recipient", fmt.Sprintf("recipient %q: targets were handed %v, not all within the selected blocks' %v", rc, pairsString(o.handed), pairsString(want))
 		}
+		if more, _ := diffCount(leafCounts(leaves), o.count); more {
+			return "handed-more-often-than-the-rewrites-produce", fmt.Sprintf("recipient %q: hand-overs observed %v, the rewrites and the selected blocks give at most %v", rc, countsString(o.count), countsString(leafCounts(leaves)))
+		}
 		if o.err != nil {
 			if ok, why := matchAnyReply(r, refusals, o.err); !ok {
 				return "refusal-reply-differs", fmt.Sprintf("recipient %q refused, but with none of the configured replies of the selected blocks: %s", rc, why)
@@ -350,8 +404,13 @@ func (sc *scenario) runEnvelope(c *rep.Case, r *rep.Reporter, rt *router, ei int
 	r.Count("envelopes", 1)
 	r.Distinct("sender_spelling_kinds", env.senderKind)
 	expect := make([][]leaf, len(env.rcpts))
+	chainEv := make([][]chainEvent, len(env.rcpts))
 	for i, rc := range env.rcpts {
+		var ev []chainEvent
+		rt.chains = &ev
 		expect[i] = rt.route(sc.top, env.sender, rc)
+		rt.chains = nil
+		chainEv[i] = ev
 	}
 	startErr, obs := sc.drive(env, ei)
 	if startErr != nil {
@@ -379,6 +438,18 @@ func (sc *scenario) runEnvelope(c *rep.Case, r *rep.Reporter, rt *router, ei int
 		}
 		kinds[class+":"+featKey(vias)+fmt.Sprintf(":d%d", maxDepth)] = true
 		r.Count("rcpt_decisions_"+class, 1)
+		countChainEvents(r, chainEv[i], class, kinds)
+		ncalls := 0
+		for _, n := range obs[i].count {
+			ncalls += n
+		}
+		r.Count("handover_calls_observed", int64(ncalls))
+		for _, n := range leafCounts(expect[i]) {
+			if n > 1 {
+				r.Count("rcpt_decisions_with_a_pair_predicted_more_than_once", 1)
+				break
+			}
+		}
 		if sc.al.twinD && (env.rcpts[i].d < 2 || (!env.sender.null && env.sender.d < 2)) {
 			r.Count("rcpt_decisions_with_twin_domain_address", 1)
 		}
@@ -399,6 +470,7 @@ func (sc *scenario) runEnvelope(c *rep.Case, r *rep.Reporter, rt *router, ei int
 			"original_config": sc.text, "sender": env.senderText, "sender_class": env.sender.String(),
 			"rcpt": env.rcptText[i], "rcpt_class": env.rcpts[i].String(),
 			"expected_handovers": pairsString(want), "observed_handovers": pairsString(obs[i].handed),
+			"expected_handover_counts": countsString(leafCounts(expect[i])), "observed_handover_counts": countsString(obs[i].count),
 			"spelling": env.senderKind + "|" + env.rcptKind[i], "original_discrepancy": what,
 		}
 		if obs[i].err != nil {
@@ -503,9 +575,18 @@ func TestVerif(t *testing.T) {
 		t.Fatalf("harness punycode encoder is wrong")
 	}
 
-	// ---------------- group A: complete configurations x envelopes ----------------
 	nA := r.N(8000, 200000)
 	envPer := r.N(12, 24)
+	// ---------------- group D: rewrite chains inside one scope (chain_test.go) ----------------
+	// (runs first: its cases are the most expensive ones to minimise; indices, not order, identify cases)
+	nD := r.N(1000, 40000)
+	for j := 0; j < nD; j++ {
+		i := groupD + j
+		r.Run(i, fmt.Sprintf("chain-%d", j), func(c *rep.Case) {
+			runChainCase(r, c, func(msg string) { t.Fatalf("%s", msg) }, i, j, envPer)
+		})
+	}
+	// ---------------- group A: complete configurations x envelopes ----------------
 	for i := 0; i < nA; i++ {
 		r.Run(i, fmt.Sprintf("route-%d", i), func(c *rep.Case) {
 			p := prng.New(r.Seed(), uint64(i), "c04")
